@@ -17,7 +17,8 @@ META = {
                  "message stream of every input under every chosen configuration is an Observe event validated by TLC against the Obs "
                  "monitor (TraceDet.tla): a second observation of an input that differs from the first is rejected",
     "design_ref": "DESIGN.md 3.11 (Obs), 5 C08, Appendix A, D",
-    "level_text": "TLC enumerates the whole configuration space of DetCfg.tla (1584 configurations, invariants on the concretisation) and "
+    "level_text": "TLC enumerates the whole configuration space of DetCfg.tla (1584 configurations, invariants on the concretisation, the "
+                  "star around the baseline covers every axis value) and checks the Obs monitor against its specification (ObsMC.tla), then "
                   "exports it; the check realises the baseline, every configuration that differs from it on one axis and seeded "
                   "combinations, on library-free corpus files, generated programs (well- and ill-typed) and corpus programs, requesting "
                   "-Fao -Ffm -Fc -Flsp -Fjava. Each (file, output kind) is an input of the Obs monitor and each run contributes its "
@@ -36,8 +37,11 @@ def load_configs(chk):
     if r.violated:
         chk.violation("DetCfg.tla violates %s" % r.violated, r.trace_text, key={"model": "DetCfg", "inv": r.violated})
     confs = [json.loads(l[7:]) for l in r.printed if isinstance(l, str) and l.startswith("CONFIG ")]
-    if len(confs) != 1584 or len({c["id"] for c in confs}) != len(confs):
-        raise vlib.MachineryError("DetCfg.tla exported %d configurations (expected 1584 distinct)" % len(confs))
+    n = [l.split() for l in r.printed if isinstance(l, str) and l.startswith("NCONFIGS ")]
+    if not n or len(confs) != int(n[0][1]) or len({c["id"] for c in confs}) != len(confs):
+        raise vlib.MachineryError("DetCfg.tla exported %d configurations, the space has %s" % (len(confs), n and n[0][1]))
+    if sum(1 for c in confs if c["dist"] <= 1) != int(n[0][3]):
+        raise vlib.MachineryError("DetCfg.tla: exported star differs from Star")
     for a in ("ChooseGc", "ChooseOther", "Export"):
         if r.coverage.get(a, (0, 0))[1] == 0:
             raise vlib.MachineryError("DetCfg action %s never evaluated" % a)
@@ -56,6 +60,16 @@ def check_monitor(chk, tier):
         raise vlib.MachineryError("ObsMC probe: a rejection is not reachable in the monitor model (%s)" % (p.error or p.violated))
     chk.tlc_runs.append({"name": "ObsMCProbe", "generated": p.states, "distinct": p.distinct, "wall_s": round(p.wall, 2),
                          "expected_violation": "NeverRejects"})
+
+
+def msg_signature(runner, key, dg1, dg2):
+    """'note-number' if the two message streams are equal up to the numbers of their notes, else 'text'."""
+    import re
+    p1, p2 = runner.kept.get((key, tuple(dg1))), runner.kept.get((key, tuple(dg2)))
+    if not p1 or not p2:
+        return "text"
+    norm = [re.sub(rb"Note \d+", b"Note N", open(p, "rb").read()) for p in (p1, p2)]
+    return "note-number" if norm[0] == norm[1] else "text"
 
 
 def parse_input(s):
@@ -99,10 +113,12 @@ def run(chk, tier):
     ninputs = len(by_input)
     # every input must have been observed at least twice, otherwise the monitor checked nothing for it
     single = [k for k, v in by_input.items() if len(v) < 2]
-    if single:
+    if single and not runner.hangs:
         raise vlib.MachineryError("inputs observed only once: %s" % single[:5])
+    chk.extra["inputs_observed_once"] = len(single)      # only possible after invocations that did not terminate
     for k, v in by_input.items():
-        chk.case(k, nontrivial=any(e["digest"] != detobs.ABSENT for _, e in v))
+        if len(v) >= 2:
+            chk.case(k, nontrivial=any(e["digest"] != detobs.ABSENT for _, e in v))
     # ---- report the rejected observations (the verdicts are TLC's; here they are only keyed and explained)
     classes = {}
     gid_of = {i.name: g for g in groups for i in g.inputs}
@@ -110,15 +126,18 @@ def run(chk, tier):
     for d in disagreements:
         pi = parse_input(d["input"])
         axes = sorted(d["axes"])
+        evs = dict((i, e) for i, e in by_input[d["input"]])
+        base_key = "|".join(d["input"].split("|")[:2])
         key = {"kind": pi["kind"], "axes": axes, "image": d["image"], "scope": pi["scope"], "file": pi["file"],
                "cfg": d["cfg"], "first": d["first"]}
+        if pi["kind"] == "msg":
+            # what kind of difference (identifies the finding; the verdict itself is TLC's)
+            key["sig"] = msg_signature(runner, base_key, evs[d["first"]]["digest"], evs[d["cfg"]]["digest"])
         ck = (pi["kind"], tuple(axes), pi["scope"])
         ent = classes.setdefault(ck, {"kind": pi["kind"], "axes": axes, "scope": pi["scope"], "count": 0, "files": []})
         ent["count"] += 1
         if pi["file"] not in ent["files"] and len(ent["files"]) < 8:
             ent["files"].append(pi["file"])
-        evs = dict((i, e) for i, e in by_input[d["input"]])
-        base_key = "|".join(d["input"].split("|")[:2])
         g = gid_of.get(pi["file"])
         detail = {"input": d["input"], "first": d["first"], "other": d["cfg"], "axes": axes,
                   "digest_first": evs[d["first"]]["digest"], "digest_other": evs[d["cfg"]]["digest"],
@@ -126,9 +145,9 @@ def run(chk, tier):
                   "run_other": runner.commands.get((g.gid, d["cfg"])) if g else None,
                   "origin": next((i.origin for i in (g.inputs if g else []) if i.name == pi["file"]), None),
                   "difference": detobs.describe_difference(runner, base_key, evs[d["first"]]["digest"], evs[d["cfg"]]["digest"])
-                  if pi["kind"] != "exit" else "exit status sums %s / %s" % (evs[d["first"]]["digest"][0], evs[d["cfg"]]["digest"][0])}
+                  if pi["kind"] != "exit" else "exit status (file scope: 0 = every file succeeded; in-batch: the status itself) %s / %s" % (evs[d["first"]]["digest"][0], evs[d["cfg"]]["digest"][0])}
         if g:
-            detail["sources"] = {i.name: i.text[:3000] for i in g.inputs}
+            detail["sources"] = {i.name: i.text for i in g.inputs}
             detail["options"] = g.opts
         chk.violation("%s of %s differs between [%s] and [%s] (axes: %s%s)" %
                       (pi["kind"], pi["file"], d["first"], d["cfg"], ",".join(axes), ", " + pi["scope"] if pi["scope"] != "file" else ""),
@@ -176,6 +195,29 @@ def describe_difference(*a):
 
 
 detobs.describe_difference = describe_difference
+
+
+def replay(d):
+    """bin/verif replay C08 <file>: run the group of the recorded disagreement again under the two configurations."""
+    det = d["detail"]
+    if not isinstance(det, dict) or "sources" not in det:
+        return 0
+    b = vlib.vbuild()
+    wd = vlib.scratch("c08replay")
+    r = vlib.tlc("DetCfg", "DetCfg", workers=4, timeout=300)
+    by_id = {c["id"]: c for c in (json.loads(l[7:]) for l in r.printed if isinstance(l, str) and l.startswith("CONFIG "))}
+    g = detobs.Group("replay", [detobs.Input(n, t, "tiny", "replay") for n, t in det["sources"].items()], det.get("options", []))
+    runner = detobs.Runner(b, wd)
+    by_input = detobs.run_all(runner, [(g, by_id[det["first"]]), (g, by_id[det["other"]])], 4)
+    key = "|".join(det["input"].split("|")[:2])
+    evs = dict(by_input.get(key, []))
+    d1, d2 = evs.get(det["first"], {}).get("digest"), evs.get(det["other"], {}).get("digest")
+    print("first  %s -> %s" % (det["first"], d1))
+    print("other  %s -> %s" % (det["other"], d2))
+    print("difference repeats" if d1 != d2 else "no difference this time (address-dependent differences need not repeat)")
+    if d1 != d2 and d1 and d2:
+        print(runner.describe_difference(key, d1, d2))
+    return 1 if d1 != d2 else 0
 
 
 def selftest():
@@ -226,5 +268,30 @@ def selftest():
 
 
 SELFTEST_NOTES = """
-(to be filled in)
+Mutations of the anchored sources, each in a scratch worktree of /repo, run as `VERIF_SRC=<wt>/aldor/aldor/src bin/verif check C08
+--tier quick` (all compile; worktrees removed afterwards).  "axes" = the axes DetCfg!DiffAxes names for the rejected Observe events
+that are not covered by a known finding.
+
+ M1 genc.c gc0IdHashInBuf: hashNum = (strHash(s) + address of s) % VAR_HASH          CAUGHT  .c on gc / aslr (file and in-batch scope)
+ M2 emit.c emitTheLisp: header names osCurDirName()/file                              no effect: osCurDirName() is "." on Unix (output unchanged)
+ M2b emit.c emitTheLisp: header names getcwd()/file (absolute path recorded)          CAUGHT  .lsp (run with per-run directories: on every axis;
+                                                                                              since then equal cwd values share one path, see Runner)
+ M3 tform.c tfHash: symHash(symeId) (address of the interned symbol) for strHash      CAUGHT  .ao .fm .c .lsp on gc / aslr
+ M4 emit.c emitTheLisp: extra header line with getpid()                               CAUGHT  .lsp on rep (same image started twice) and all others
+ M5 emit.c C header text depends on getenv("USER")                                    CAUGHT  .c on env
+ M6 table.c tblNew0: bucket vector allocated with a pointer-free object code           CAUGHT  msg/.ao/.fm/.c/.lsp/exit on gc: under the forced
+    (OB_BInt): the collector does not trace it                                                 schedules the compiler loops or fails; invocations that
+                                                                                              do not exit within the limit are observed as hangs
+ M7 comsg.c comsgInit: message counter not reset per file                             CAUGHT  msg on inv (second file of a batch numbers from #n+1)
+ java fix (hooks/fix-C08-java-token-hash.diff) applied in a worktree: no .java disagreement is left on aslr/gc/cwd/env/rep.
+
+Trace corruption (selftest() below): recorded trace accepted; one digest word flipped -> rejected, report names both configurations and
+the axis (strict cfg: invariant Functional); gc = {-Wno-gc, k=7} -> invariant ValidCfgs; digest with 3 words -> ValidCfgs; aslr = "maybe"
+-> ValidCfgs; a trace not ordered by distance from the baseline -> invariant NearestFirst.
+Monitor model: ObsMC.cfg 22,621 states (6 s), ObsMC5.cfg 2,000,719 states (41 s); probe ObsMCProbe.cfg violates NeverRejects as expected.
+Unchanged tree: held (known findings only) with VERIF_SEED 20261004, 777, 1, 42, 31337, 90210.
+False alarms met and removed while building: (1) a fatal error ("too many errors", "Program fault" of the Java generator) ends a
+multi-file invocation, the remaining files are never started -> such files are not observed for that run; (2) the exit status of a batch
+that ends by a fatal error is 1, not the sum of the error counts -> batch and separate runs are compared on zero / non-zero only;
+(3) stale outputs in the directory produce "will now be out of date" warnings -> every run starts in a fresh directory.
 """
